@@ -38,6 +38,8 @@ THEOREMS = [
     'C08_load_frame',
     'C08_load_fail_atomic',
     'C08_register_get',
+    'C08_history_refines_spec',
+    'C08_defs_of_spec',
     'C08_chain_cut_local',
     'C08_chain_concat',
     'C08_chain_raise_stops',
